@@ -84,11 +84,14 @@ def _run(F, R, ctx):
     m = lib.arm_map(vm, sb)
     operands = operand_opcodes(F, vm, sb)
     R.note("EMIT has %d opcodes; %d explicit dispatch arms; ephemeral=%s." % (len(em), len(vm.blocks[sb]["targets"]), sorted(eph)))
-    R.assume("opcodes for variables that are both captured and assigned (%s) are never produced in practice: the boxing "
-             "pass (ReplaceSetOperationsWithBoxes) rewrites such variables into boxes before code generation — assumed, "
-             "not checked" % ", ".join(sorted(MUTCAPTURE)))
+    HEADER_ASSUMED = {"FIRSTCOPYHEAPCAPTURECLOSURE", "COPYHEAPCAPTURECLOSURE"}
+    R.assume("the two closure-header opcodes for variables that are both captured and assigned (%s) are not produced in practice: "
+             "the boxing pass (ReplaceSetOperationsWithBoxes) rewrites such variables into boxes before code generation — "
+             "assumed; five program shapes (counter closure, internal define, accumulator in for-each, named let, nested "
+             "lambdas) were probed and did not produce them. (ALLOC / READALLOC / SETALLOC, formerly listed here, ARE produced "
+             "and have interpreter arms: they are checked like every other opcode.)" % ", ".join(sorted(HEADER_ASSUMED)))
     for op in sorted(em):
-        if op in MUTCAPTURE:
+        if op in HEADER_ASSUMED:
             R.inst("C01.a", "opcode %s (allowlisted: captured+assigned variables are boxed before codegen)" % op, True,
                    sample=True, nontrivial=False)
             continue
